@@ -216,7 +216,10 @@ func (f *RepeatingGroup) Read(tv []TagValue) ([]TagValue, error) {
 		}
 
 		group.rwLock.Lock()
-		group.tagLookup[tvRange[0].tag] = tvRange
+		// Keep exactly the fields this item consumed (one field, or a nested group with its entries);
+		// the capacity still reaches the end, which reading a nested group relies on. With the whole
+		// remainder kept, writing the group again emitted every following field once more per item.
+		group.tagLookup[tvRange[0].tag] = tvRange[:len(tvRange)-len(tv)]
 		group.tags = append(group.tags, gi.Tag())
 		group.rwLock.Unlock()
 	}
